@@ -35,6 +35,9 @@ def case_text(case) -> str:
     for it in case.get("events", []):
         kind, t = it[0], it[1]
         txt = {"text": "hello", "section": "section verse", "lyric": "lyric la"}[kind]
+        if pr is not None:
+            # texts that look like templates of the usual formatting mini-languages: an event's text is data, wherever it ends up
+            txt += pr.choice(["", "", " {}", " {0}", " {x}", " %s", " %(a)s", " {{}}", " $x", " ${x}", " {!r}", " {:>10}", " {0.__class__}", " \\n", " %"])
         events.append(ge_line(t, txt))
     tracks = {}
     for hdr, body in case.get("tracks", {}).items():
@@ -132,7 +135,9 @@ def observe(case, props, queries=(), lookups=(), direct=()) -> dict:
                 add("sp", e.tick, e.timestamp, e._proximal_bpm_event_index)
             for e in tr.track_events:
                 add("te", e.tick, e.timestamp, e._proximal_bpm_event_index)
-    for t in queries:
+    # (every tick on which something was observed is also queried directly: an event's own time and the query's must agree)
+    seen_ticks = sorted({o["t"] for o in rec["obs"] if o["k"] in ("note-end", "sp", "te")} - set(queries))
+    for t in list(queries) + (seen_ticks[:40] if queries else []):
         r1, v1 = _q(bpm.timestamp_at_tick_no_optimize_return, t)
         r2, v2 = _q(bpm.timestamp_at_tick, t)
         if r1 == "" and r2 == "":
@@ -196,6 +201,8 @@ def seeded_map(r, max_segments=12, max_total_s=9.0e5, min_segments=1):
         dur = Fraction(r.choice([1, 10, 1000, 10**5, 10**7, 10**7, 10**9, 10**10]), 10**6) * r.randrange(1, 100)   # seconds
         dur = min(dur, remaining / max(1, (nseg - k)))
         ticks = max(1, int(dur * n * res / 60000))
+        if r.random() < 0.08:
+            ticks = r.choice([1, 1, 2, 3])        # tempo events a tick or two apart: at fast tempos they share a microsecond
         ticks = min(ticks, 10**8 // max(1, nseg))
         seg_s = Fraction(ticks * 60000, n * res)
         if spent + seg_s > budget and k > 0:
@@ -250,8 +257,11 @@ def chart_case_from_map(r, cid, res, tempo, pts, dense=False):
         if later and r.random() < 0.7:
             ln = max(0, r.choice(later) - t + r.choice([-1, 0, 0, 1]))
         body.append(("N", t, r.choice([0, 1, 2, 3, 4, 7]), ln))
+        if r.random() < 0.25:
+            # a flag line with a length of its own (meaningless: "flag lines never contribute a length"); never forced on the first note
+            body.append(("N", t, 6 if (i == 0 or r.random() < 0.5) else 5, r.choice([0, 1, ln + 1, ln + 500, 10**5])))
     sp = [("S", t, r.choice([0, 1, 50])) for t in sorted(r.sample(pts, min(len(pts), 2)))]
-    te = [("E", t, "solo") for t in sorted(r.sample(pts, min(len(pts), 2)))]
+    te = [("E", t, r.choice(["solo", "solo", "soloend", "{}", "{0}", "{x}", "%s", "so{}lo", "{!r}", "%(a)s"])) for t in sorted(r.sample(pts, min(len(pts), 2)))]
     body = nt.interleave(r, body, sp)
     body = nt.interleave(r, body, te)
     tracks = {"ExpertSingle": body}
